@@ -528,6 +528,21 @@ def exec_window(case, obs):
         obs.check(bool(np.array_equal(got[is_in], want[is_in])), "extract_subvolume", "window-voxels", diag, cls)
     if (~is_in).any():
         obs.check(bool(np.allclose(got[~is_in], vol.mean(), rtol=1e-12, atol=0)), "extract_subvolume", "outside-is-volume-mean", diag, cls)
+    if (~is_in).any():
+        # Non-initial state: the caller normalises the SAME array in place and extracts again (a processing loop does
+        # exactly this).  The fill value must be the mean of the volume as it is now.
+        keep_in = got[is_in].copy()
+        vol -= 1000.0
+        vol *= 0.5
+        got2 = obs.lib("extract_subvolume", cryomap.extract_subvolume, vol, np.array(cen, dtype=float), tuple(box))
+        ok2 = getattr(got2, "shape", None) == tuple(box) and bool(np.allclose(got2[~is_in], vol.mean(), rtol=1e-12, atol=1e-12))
+        obs.check(ok2, "extract_subvolume", "outside-is-current-volume-mean",
+                  lambda: f"after the caller edited the volume in place: outside voxels {np.unique(np.asarray(got2)[~is_in])[:3].tolist()}, volume mean {float(vol.mean())!r}", cls)
+        if ok2 and is_in.any():
+            obs.check(bool(np.allclose(got2[is_in], (keep_in - 1000.0) * 0.5, rtol=0, atol=1e-9)), "extract_subvolume", "window-voxels-after-edit",
+                      "window voxels do not follow the in-place edit of the volume", cls)
+        vol *= 2.0
+        vol += 1000.0
     if kind == "inside":
         cr = obs.lib("crop", cryomap.crop, vol, tuple(box), None, tuple(cen))
         obs.check(getattr(cr, "shape", None) == tuple(box) and bool(np.array_equal(cr, want)), "crop", "crop-equals-window",
